@@ -907,6 +907,168 @@ def _no_imm(tree):
     return ['b', False, tree[2], tree[3], [_no_imm(x) for x in tree[4]]]
 
 
+# ---------------------------------------------------------------- round 5: routines stepped with next() from OUTSIDE any clock
+def run_nextdrive(pr):
+    """A Routine is stepped by calling next() directly (main thread; or from inside a clock-woken routine when pr['host'] is a clock):
+    at every step it records its logical time and sends bundles.  No clock wakes it."""
+    global _INTS
+    _INTS = bool(pr.get('ints'))
+    if MODE == 'nrt':
+        main.reset()
+    lock = main._main_lock
+    addr = NetAddr('127.0.0.1', 57110)
+    obs = {'done': False, 'steps': []}
+    captured = []
+    clocks = []
+    with lock:
+        for t in pr['tempos']:
+            clocks.append(TempoClock(num(t)))
+    if MODE == 'rt':
+        main._osc_interface._send = lambda msg, target: captured.append(bytes(msg.dgram))
+        obs['osc_offset'] = str(SystemClock._elapsed_osc_offset)
+
+    def build(es):
+        return [['/m', int(e[1])] if e[0] == 'm' else [lat_of(e[1])] + build(e[2]) for e in es]
+
+    def one_send(lat, es, rec):
+        score = main._osc_interface._osc_score if MODE == 'nrt' else None
+        c0 = max(x[1] for x in score._scoreq._queue) if score else None
+        n0 = len(captured)
+        try:
+            addr.send_bundle(lat_of(lat), *build(es))
+            if MODE == 'nrt':
+                ent = max((x for x in score._scoreq._queue if x[1] > c0), key=lambda x: x[1])
+                tree = _no_imm(merge(None, parse_packet(bytes(ent[2].msg[4:])), 0))
+            else:
+                tree = merge(None, parse_packet(captured[n0]), int(obs['osc_offset']))
+            rec['sends'].append({'lat': lat, 'es': es, 'tree': tree, 'raised': None})
+        except Exception as e:
+            rec['sends'].append({'lat': lat, 'es': es, 'tree': None, 'raised': type(e).__name__})
+
+    def inner_body():
+        for step in pr['steps']:
+            rec = {'T': fr(main.current_tt._m_seconds), 'sends': []}
+            for lat, es in step:
+                one_send(lat, es, rec)
+            obs['steps'].append(rec)
+            yield 1
+
+    def drive(rout, outer_T):
+        for _ in pr['steps']:
+            before = main.elapsed_time() if (MODE == 'rt' and outer_T is None) else None
+            rout.next()
+            if before is not None:
+                obs['steps'][-1]['bounds'] = [fr(before), fr(main.elapsed_time())]
+            if outer_T is not None:
+                obs['steps'][-1]['outer_T'] = fr(outer_T())
+            if MODE == 'rt' and outer_T is None:
+                time.sleep(0.003)
+
+    host = pr.get('host')
+    if host is None:
+        r = Routine(inner_body)
+        if pr.get('wrap'):
+            # the stepped routine itself steps an inner routine (two levels of next())
+            inner = Routine(inner_body)
+
+            def mid_body():
+                for _ in pr['steps']:
+                    inner.next()
+                    yield 1
+            r = Routine(mid_body)
+        drive(r, None)
+        obs['done'] = True
+    else:
+        clock = SystemClock if host == 'S' else AppClock if host == 'A' else clocks[host[1]]
+
+        def host_body(inval):
+            yield num(pr['start'])
+            if MODE == 'rt':
+                t_end = time.time() + 0.003
+                while time.time() < t_end:
+                    pass
+            drive(Routine(inner_body), lambda: main.current_tt._m_seconds)
+            obs['done'] = True
+        with lock:
+            Routine(host_body).play(clock, 0)
+        if MODE == 'nrt':
+            main.process(0)
+        else:
+            deadline = time.time() + 6.0
+            while time.time() < deadline and not obs['done']:
+                time.sleep(0.01)
+    for c in clocks:
+        if MODE == 'rt':
+            c.stop()
+    return obs
+
+
+# ---------------------------------------------------------------- round 5: clock state changes, then the routine keeps sending
+def run_clockseq(pr):
+    """A routine on a TempoClock runs a sequence of steps: ['tempo', v] | ['etempo', v] | ['beats', v] | ['bpb', v] | ['yield', d]
+    | ['send', lat]; after every yield it records seconds and beats, every send is read back."""
+    global _INTS
+    _INTS = bool(pr.get('ints'))
+    if MODE == 'nrt':
+        main.reset()
+    lock = main._main_lock
+    addr = NetAddr('127.0.0.1', 57110)
+    obs = {'done': False, 'trace': []}
+    captured = []
+    with lock:
+        clock = TempoClock(num(pr['tempo']))
+        obs['clock_base'] = fr(clock._base_seconds)
+    if MODE == 'rt':
+        main._osc_interface._send = lambda msg, target: captured.append(bytes(msg.dgram))
+        obs['osc_offset'] = str(SystemClock._elapsed_osc_offset)
+
+    def body(inval):
+        _, clk_ = inval
+        obs['trace'].append(['at', fr(main.current_tt._seconds), fr(clk_.beats)])
+        for st in pr['seq']:
+            k = st[0]
+            if MODE == 'rt' and k in ('tempo', 'etempo', 'beats', 'bpb'):
+                t_end = time.time() + 0.002          # late when it touches the clock
+                while time.time() < t_end:
+                    pass
+            if k == 'tempo':
+                clk_.tempo = num(st[1])
+            elif k == 'etempo':
+                clk_.etempo(num(st[1]))
+            elif k == 'beats':
+                clk_.beats = num(st[1])
+            elif k == 'bpb':
+                clk_.beats_per_bar = num(st[1])
+            elif k == 'yield':
+                yield num(st[1])
+                obs['trace'].append(['at', fr(main.current_tt._seconds), fr(clk_.beats)])
+            elif k == 'send':
+                score = main._osc_interface._osc_score if MODE == 'nrt' else None
+                c0 = max(x[1] for x in score._scoreq._queue) if score else None
+                n0 = len(captured)
+                addr.send_bundle(lat_of(st[1]), ['/m', 1])
+                if MODE == 'nrt':
+                    ent = max((x for x in score._scoreq._queue if x[1] > c0), key=lambda x: x[1])
+                    obs['trace'].append(['sent', st[1], fr(ent[2].bndl[0]), str(parse_packet(bytes(ent[2].msg[4:]))[1])])
+                else:
+                    obs['trace'].append(['sent', st[1], None, str(parse_packet(captured[n0])[1])])
+        obs['done'] = True
+
+    def root(inval):
+        yield num(pr['start'])
+        Routine(body).play(clock, 0)
+    with lock:
+        Routine(root).play(SystemClock)
+    if MODE == 'nrt':
+        main.process(0)
+    else:
+        deadline = time.time() + 6.0
+        while time.time() < deadline and not obs['done']:
+            time.sleep(0.01)
+        clock.stop()
+    return obs
+
+
 def main_():
     payload = json.load(open(sys.argv[1]))
     out = []
@@ -926,8 +1088,8 @@ def main_():
             import traceback
             pout.append({'fatal': '%r\n%s' % (e, traceback.format_exc())})
     aout, cout = [], []
-    mout = []
-    for key, fn_, acc in (('alongside', run_alongside, aout), ('clumps', run_clump, cout), ('msgnest', run_msgnest, mout)):
+    mout, ndout, csout = [], [], []
+    for key, fn_, acc in (('alongside', run_alongside, aout), ('clumps', run_clump, cout), ('msgnest', run_msgnest, mout), ('nextdrive', run_nextdrive, ndout), ('clockseq', run_clockseq, csout)):
         for pr in payload.get(key, []):
             try:
                 acc.append(fn_(pr))
@@ -935,7 +1097,7 @@ def main_():
                 import traceback
                 acc.append({'fatal': '%r\n%s' % (e, traceback.format_exc())})
     with open(sys.argv[2], 'w') as f:
-        json.dump({'out': out, 'probes_out': pout, 'alongside_out': aout, 'clumps_out': cout, 'msgnest_out': mout}, f)
+        json.dump({'out': out, 'probes_out': pout, 'alongside_out': aout, 'clumps_out': cout, 'msgnest_out': mout, 'nextdrive_out': ndout, 'clockseq_out': csout}, f)
     global _burn
     _burn = False
 
